@@ -24,9 +24,12 @@ def make_hierarchy(cx, nbath, depth, N, zero_coupling=False):
     V = numpy.empty((nbath, N, N), dtype=object if cx.sym else float)
     for k in range(nbath):
         V[k] = cx.real_symmetric("V%d" % k, N)
-    cf = types.SimpleNamespace(params=[dict(ftype=CorrelationFunction.allowed_types[0])])
+    # one correlation function per bath, each carrying its own (different) parameters, as the
+    # real CorrelationFunctionMatrix does
+    cfs = [types.SimpleNamespace(params=[dict(ftype=CorrelationFunction.allowed_types[0], cortime=tau[k],
+                                              reorg=lam[k], T=T)]) for k in range(nbath)]
     sbi = types.SimpleNamespace(
-        N=nbath, KK=V, CC=types.SimpleNamespace(get_correlation_function=lambda i, j: cf),
+        N=nbath, KK=V, CC=types.SimpleNamespace(get_correlation_function=lambda i, j: cfs[i]),
         get_correlation_time=lambda i: tau[i], get_reorganization_energy=lambda i: lam[i],
         get_temperature=lambda: T)
     H = cx.hermitian("H", N)
@@ -42,12 +45,13 @@ def ncomb(l, K):
 
 
 @harness("C16", "index_tables",
-         quick=[dict(nbath=k, depth=d) for k in (1, 2, 3) for d in (0, 1, 2, 3)],
-         thorough=[dict(nbath=k, depth=d) for k in (1, 2, 3, 4) for d in (0, 1, 2, 3, 4, 5)],
+         quick=[dict(nbath=k, depth=d) for k in (1, 2, 3) for d in (0, 1, 2, 3)] + [dict(nbath=2, depth=11)],
+         thorough=[dict(nbath=k, depth=d) for k in (1, 2, 3, 4) for d in (0, 1, 2, 3, 4, 5)] +
+                  [dict(nbath=2, depth=d) for d in (9, 10, 11, 12)] + [dict(nbath=3, depth=11)],
          functions=[F + ":KTHierarchy.__init__", F + ":KTHierarchy.generate_indices",
                     F + ":KTHierarchy._convert_2_matrix", F + ":KTHierarchy._make_nmp1",
                     F + ":KTHierarchy._make_Gamma"],
-         bound="number of baths <= 3, depth <= 3 (thorough 4 baths, depth 5); the tables the real code builds are "
+         bound="number of baths <= 3, depth <= 3, plus 2 baths at depth 11 (two-digit orders) (thorough 4 baths, depth 5; 2 baths depth 9-12; 3 baths depth 11); the tables the real code builds are "
                "embedded as integer functions and every quantified statement (exists a multi-index / a row / a "
                "link violating ...) is a z3 query over integer variables; Gamma with symbolic decay rates",
          out="larger hierarchies")
